@@ -76,7 +76,7 @@ func firstDiff(got, want string, l ref.Lang) string {
 	return ""
 }
 
-const c01Rule = "C01: (a) complete pairwise table — for each of 10 languages x 5 sizes, 2048 rotation entropies (word p = (s+89p) mod 2048) and 2048 counter-searched entropies realising every index in the checksum-bearing last word, i.e. every (language,size,position,index) tuple; (b) counter search realising all 256 first-SHA-256-byte values at every checksum width; (c) rapid-generated structured entropies (uniform, k leading zero bytes, runs of 0/1 bits at either end, all-0/all-1, single bit, edge indices, chosen hash byte) x language. Oracle: bit-slice reference encoder over golden lists, byte-for-byte, plus separator structure. Every case is non-trivial (no trivial encode exists); distinct by (language, entropy)"
+const c01Rule = "C01: (a) complete pairwise table \u2014 for each of 10 languages x 5 sizes, 2048 rotation entropies (word p = (s+89p) mod 2048) and 2048 counter-searched entropies realising every index in the checksum-bearing last word, i.e. every (language,size,position,index) tuple; (b) counter search realising all 256 first-SHA-256-byte values at every checksum width; (c) rapid-generated structured entropies (uniform, k leading zero bytes, runs of 0/1 bits at either end, all-0/all-1, single bit, edge indices, chosen hash byte) x language. Oracle: bit-slice reference encoder over golden lists, byte-for-byte, plus separator structure. Every case is non-trivial (no trivial encode exists); distinct by (language, entropy)"
 
 func c01Record(c *encCase, tuples *tupleSet, hb *[5][256]bool) {
 	cov.Eval(1)
